@@ -619,6 +619,24 @@ def digest(o):
     return core.canon_hash(o)
 
 
+def state_of(recv):
+    """the part of the receiver an alias may legitimately change (scratch buffers, clocks and caches are left out)"""
+    name = type(recv).__name__
+    if name == 'BIOGEME':
+        P = recv.biogeme_parameters
+        return canon({'betas': list(recv.id_manager.free_betas_values), 'bounds': list(recv.id_manager.bounds), 'model': recv.modelName,
+                      'threads': recv.number_of_threads, 'params': [[n, P.get_value(n)] for n in sorted(P.parameter_names)],
+                      'best': getattr(recv, 'bestIteration', None), 'notes': recv.user_notes})
+    if name == 'bioResults':
+        d = recv.data
+        return canon({'betas': recv.get_beta_values(), 'model': d.modelName, 'html': getattr(d, 'htmlFileName', None), 'f12': getattr(d, 'F12FileName', None),
+                      'latex': getattr(d, 'latexFileName', None), 'pickle': getattr(d, 'pickleFileName', None)})
+    if name == 'Database':
+        return canon({'data': recv.data, 'panel': recv.is_panel(), 'map': getattr(recv, 'individualMap', None), 'name': recv.name,
+                      'generators': sorted(getattr(recv, 'number_generators', {}) or {}), 'nvars': len(recv.variables) if hasattr(recv, 'variables') else None})
+    return canon(recv)
+
+
 # --------------------------------------------------------------------------- fixtures
 
 TOML = core.TOML_MINIMAL + '''[SimpleBounds]
@@ -742,7 +760,9 @@ def receivers():
     add(E + 'elementary_expressions.Variable', 'X', lambda e: e.X())
     add(E + 'elementary_expressions.bioDraws', 'normal', lambda e: e.ex.bioDraws('d1', 'NORMAL'))
     add(E + 'elementary_expressions.RandomVariable', 'omega', lambda e: e.ex.RandomVariable('omega'))
-    add(E + 'elementary_expressions.Elementary', 'el', lambda e: e.ex.Elementary('el'))
+    import biogeme.expressions.elementary_expressions as el
+
+    add(E + 'elementary_expressions.Elementary', 'el', lambda e: el.Elementary('el'))
     U = E + 'unary_expressions.'
     import biogeme.expressions.unary_expressions as un
     import biogeme.expressions.binary_expressions as bi
@@ -800,6 +820,31 @@ def receivers():
     return R
 
 
+# expression kinds the C++ engine can build (bioFormula.cc); any other kind makes it throw an uncaught C++ exception that
+# terminates the interpreter, so the aliases that reach the engine are called "out of context" on such receivers
+ENGINE_KINDS = {'And', 'BelongsTo', 'Beta', 'ConditionalSum', 'Derive', 'Divide', 'Elem', 'Equal', 'Greater', 'GreaterOrEqual', 'Integrate', 'Less',
+                'LessOrEqual', 'Minus', 'MonteCarlo', 'NotEqual', 'Numeric', 'Or', 'PanelLikelihoodTrajectory', 'Plus', 'Power', 'PowerConstant',
+                'RandomVariable', 'Times', 'UnaryMinus', 'Variable', '_bioLogLogit', '_bioLogLogitFullChoiceSet', 'bioDraws', 'bioLinearUtility', 'bioMax',
+                'bioMin', 'bioMultSum', 'bioNormalCdf', 'cos', 'exp', 'log', 'logzero', 'sin', 'Catalog'}
+
+
+def fo(fields):
+    """post-processing of a function output: only the requested quantities (the others are uninitialised memory)"""
+
+    def post(res, r, e):
+        out = {}
+        inner = getattr(res, 'function_output', res)
+        for f in fields:
+            v = getattr(res, f, None)
+            if v is None:
+                v = getattr(inner, f, None)
+            out[f] = v
+        out['type'] = type(res).__name__
+        return out
+
+    return post
+
+
 def is_expression_class(q):
     return q.startswith('biogeme.expressions.') and not q.endswith('IdManager') or q == 'biogeme.catalog.Catalog'
 
@@ -816,6 +861,14 @@ def arg_specs(owner_q, new_name, is_module):
     fn = new_name
     if not is_module and is_expression_class(owner_q):
         pick_db = lambda e, r: e.pdb if type(r).__name__ == 'PanelLikelihoodTrajectory' else e.db  # noqa: E731
+        if fn in ('get_value_c', 'get_value_and_derivatives', 'create_function') and owner_q.split('.')[-1] not in ENGINE_KINDS:
+            # receiver of a kind the engine does not know: the call stops in python ("evaluated out of context" / no signature)
+            if fn == 'create_function':
+                spec('no database', lambda e, r: ((None, 4), {'gradient': True, 'hessian': False}))
+            else:
+                spec('out of context', lambda e, r: ((), {'number_of_draws': 4}))
+                spec('out of context kw', lambda e, r: ((), {'prepare_ids': False, 'aggregation': True}))
+            return S
         if fn in ('count_panel_trajectory_expressions', 'get_class_name', 'requires_draws', 'get_value'):
             spec('noargs', none)
         elif fn in ('get_signature', 'get_status_id_manager'):
@@ -835,15 +888,20 @@ def arg_specs(owner_q, new_name, is_module):
             spec('positional+aggregation', lambda e, r: ((pick_db(e, r),), {'prepare_ids': True, 'aggregation': True, 'number_of_draws': 4}))
         elif fn == 'get_value_and_derivatives':
             spec('gradient', lambda e, r: ((), {'database': pick_db(e, r), 'prepare_ids': True, 'gradient': True, 'hessian': False, 'bhhh': False,
-                                                 'number_of_draws': 4}))
-            spec('named hessian', lambda e, r: ((None, pick_db(e, r), 4), {'prepare_ids': True, 'named_results': True, 'bhhh': False}))
+                                                 'number_of_draws': 4}), fo(['function', 'gradient']))
+            spec('named hessian', lambda e, r: ((None, pick_db(e, r), 4), {'prepare_ids': True, 'named_results': True, 'bhhh': False}),
+                 fo(['function', 'gradient', 'hessian']))
         elif fn == 'create_function':
-            def post(result, r, e):
-                x = e.np.array(list(r.id_manager.free_betas_values), dtype=float) + 0.125
-                return result(x)
+            def post(fields):
+                def p(result, r, e):
+                    x = e.np.array(list(r.id_manager.free_betas_values), dtype=float) + 0.125
+                    return fo(fields)(result(x), r, e)
 
-            spec('gradient only', lambda e, r: ((pick_db(e, r), 4), {'gradient': True, 'hessian': False, 'bhhh': False}), post)
-            spec('kw all', lambda e, r: ((), {'database': pick_db(e, r), 'number_of_draws': 4, 'gradient': True, 'hessian': True, 'bhhh': True}), post)
+                return p
+
+            spec('gradient only', lambda e, r: ((pick_db(e, r), 4), {'gradient': True, 'hessian': False, 'bhhh': False}), post(['function', 'gradient']))
+            spec('kw all', lambda e, r: ((), {'database': pick_db(e, r), 'number_of_draws': 4, 'gradient': True, 'hessian': True, 'bhhh': True}),
+                 post(['function', 'gradient', 'hessian', 'bhhh']))
         return S
     key = (owner_q.split('.')[-1] if not is_module else owner_q.replace('biogeme.', ''), fn)
     np_ = None
@@ -857,8 +915,9 @@ def arg_specs(owner_q, new_name, is_module):
         ('BIOGEME', 'calculate_likelihood'): [('unscaled', lambda e, r: ((nparr(e, [0.25, -0.5]), False), {}), None, None),
                                               ('scaled kw', lambda e, r: ((), {'x': [0.25, -0.5], 'scaled': True}), None, None)],
         ('BIOGEME', 'calculate_likelihood_and_derivatives'): [
-            ('grad', lambda e, r: ((nparr(e, [0.25, -0.5]), False), {}), None, None),
-            ('hessian bhhh', lambda e, r: ((nparr(e, [0.25, -0.5]),), {'scaled': True, 'hessian': True, 'bhhh': True}), None, None)],
+            ('grad', lambda e, r: ((nparr(e, [0.25, -0.5]), False), {}), fo(['function', 'gradient']), None),
+            ('hessian bhhh', lambda e, r: ((nparr(e, [0.25, -0.5]),), {'scaled': True, 'hessian': True, 'bhhh': True}),
+             fo(['function', 'gradient', 'hessian', 'bhhh']), None)],
         ('BIOGEME', 'calculate_null_loglikelihood'): [('av', lambda e, r: ((e.av(),), {}), None, None)],
         ('BIOGEME', 'check_derivatives'): [('point', lambda e, r: ((nparr(e, [0.25, -0.5]),), {'verbose': False}), None, None)],
         ('BIOGEME', 'confidence_intervals'): [('two', lambda e, r: (([{'b1': 0.5, 'b2': -0.25}, {'b1': 0.25, 'b2': 0.0}, {'b1': 0.75, 'b2': 0.5}],), {'interval_size': 0.5}), None, None)],
@@ -1035,7 +1094,7 @@ def one_call(fn, args, kwargs, recv, post, env, seed):
     out['dep'] = [str(x.message) for x in rec if issubclass(x.category, DeprecationWarning)]
     out['other_warnings'] = sorted(mask_text(str(x.message))[:80] for x in rec if not issubclass(x.category, DeprecationWarning))
     try:
-        out['state'] = digest(canon(recv)) if recv is not None else None
+        out['state'] = digest(state_of(recv)) if recv is not None else None
     except Exception as e:  # noqa: BLE001
         out['state'] = 'state raises ' + type(e).__name__
     out['args_after'] = digest(canon([args, kwargs]))
@@ -1098,21 +1157,26 @@ def run_slot_call(T_by, R, s, recv_label, spec, seed, mark=None, sides=('old', '
             mark(side)
         with core.scratch(TOML):
             env = Env()
-            if s['is_module']:
-                recv = None
-                target = getattr(cls_entry['obj'], s['old'] if side == 'old' else s['want'])
-            else:
-                fac = dict(R[s['cls']])[recv_label]
-                recv = fac(env)
-                if variant == 'prepared':
-                    recv.prepare(env.db, 0)
-                if side == 'old':
-                    target = getattr(recv, s['old'])
-                elif s['want_kind'] == 'attr':
-                    target = getattr(recv, s['want'])
+            try:
+                if s['is_module']:
+                    recv = None
+                    target = getattr(cls_entry['obj'], s['old'] if side == 'old' else s['want'])
                 else:
-                    target = getattr(sys.modules[cls_entry['obj'].__module__], s['want'])
-            args, kwargs = builder(env, recv)
+                    fac = dict(R[s['cls']])[recv_label]
+                    recv = fac(env)
+                    if variant == 'prepared':
+                        recv.prepare(env.db, 0)
+                    if side == 'old':
+                        target = getattr(recv, s['old'])
+                    elif s['want_kind'] == 'attr':
+                        target = getattr(recv, s['want'])
+                    else:
+                        target = getattr(sys.modules[cls_entry['obj'].__module__], s['want'])
+                args, kwargs = builder(env, recv)
+            except Exception as e:  # noqa: BLE001  (the receiver / the arguments cannot be built: same on both sides)
+                outs[side] = {'exc': 'setup ' + core.exc_kind(e), 'exc_text': mask_text(str(e))[:160], 'dep': [], 'other_warnings': [], 'state': None,
+                              'args_after': None, 'setup_failed': True}
+                continue
             outs[side] = one_call(target, args, kwargs, recv, post, env, seed)
             if 'exc' in outs[side] and not engine_alive():
                 outs[side]['poisoned'] = True
@@ -1169,6 +1233,10 @@ def worker(payload):
                         emit({'entry': entry})
                         emit({'poisoned_at': [i, ri, si]})
                         return {'done': False}
+                    if outs['old'].get('setup_failed') and outs['new'].get('setup_failed'):
+                        entry['setup_failed'] = entry.get('setup_failed', 0) + 1
+                        entry['setup_error'] = outs['old']['exc'] + ': ' + outs['old']['exc_text']
+                        continue
                     entry['calls'] += 1
                     if 'exc' in outs['old'] and 'exc' in outs['new']:
                         entry['both_raise'] += 1
@@ -1222,7 +1290,7 @@ def kw_cases():
 
     def post_fn(res, r, e):
         x = e.np.array(list(r.id_manager.free_betas_values), dtype=float) + 0.125
-        return res(x)
+        return fo(['function', 'gradient'])(res(x), r, e)
 
     def biogeme_state(res, r, e):
         names = sorted(res.biogeme_parameters.parameter_names)
@@ -1263,11 +1331,15 @@ def kw_cases():
     EX = 'biogeme.expressions.base_expressions.Expression'
     C.append((EX, 'prepare', mc, lambda e, r: ((e.db,), {}), {'numberOfDraws': lambda e: 5}, lambda res, r, e: r.id_manager.number_of_draws))
     C.append((EX, 'create_function', mc, lambda e, r: ((e.db,), {'hessian': False}), {'numberOfDraws': lambda e: 4}, post_fn))
-    C.append((EX, 'create_objective_function', mc, lambda e, r: ((e.db,), {'hessian': False}), {'numberOfDraws': lambda e: 4},
-              lambda res, r, e: res(e.np.array(list(r.id_manager.free_betas_values), dtype=float) + 0.125)))
+    def post_obj(res, r, e):
+        res.set_variables(e.np.array(list(r.id_manager.free_betas_values), dtype=float) + 0.125)
+        fg = res.f_g()
+        return [res.f(), fg.function, fg.gradient]
+
+    C.append((EX, 'create_objective_function', mc, lambda e, r: ((e.db,), {'hessian': False}), {'numberOfDraws': lambda e: 4}, post_obj))
     C.append((EX, 'get_value_c', mc, lambda e, r: ((e.db,), {}), {'numberOfDraws': lambda e: 4, 'prepareIds': lambda e: True}, None))
     C.append((EX, 'get_value_and_derivatives', mc, lambda e, r: ((), {'database': e.db, 'hessian': False, 'bhhh': False}),
-              {'numberOfDraws': lambda e: 4, 'prepareIds': lambda e: True}, None))
+              {'numberOfDraws': lambda e: 4, 'prepareIds': lambda e: True}, fo(['function', 'gradient'])))
     return C
 
 
@@ -1310,10 +1382,14 @@ def kw_worker(payload):
                         target = getattr(recv, func)
                     args, kwargs = base_b(env, recv)
                     kwargs = dict(kwargs)
-                    for o in combo:
+                    for o in olds:
                         v = olds[o](env)
                         new = u['map'][o]
-                        if side == 'old':
+                        if o not in combo:
+                            # the other keywords of the function are given under their current names on both sides
+                            if new is not None and func != '__init__':
+                                kwargs[new] = v
+                        elif side == 'old':
                             kwargs[o] = v
                         elif new is not None:
                             kwargs[new] = v
@@ -1600,6 +1676,9 @@ def run_workers(ctx, res, T, seed, only=None):
         m['both_raise'] += e['both_raise']
         m['mismatch'] += e['mismatch']
         m['skipped'] = m['skipped'] or e['skipped']
+        if e.get('setup_failed'):
+            m['setup_failed'] = m.get('setup_failed', 0) + e['setup_failed']
+            m['setup_error'] = e.get('setup_error')
 
     start, skip_to = (only if only is not None else 0), None
     for _guard in range(80):
@@ -1631,6 +1710,7 @@ def run_workers(ctx, res, T, seed, only=None):
         at = poisoned if poisoned is not None else about[:3]
         res.tally('worker_retired_after_engine_error' if poisoned is not None else 'worker_killed_by_the_engine')
         i, ri, si = at
+        res.notes.append(f'engine {"raised" if poisoned is not None else "killed the interpreter"} in {S[i]["cls"].split(".")[-1]}.{S[i]["old"]} (receiver {ri}, arguments {si})')
         sides = {side: run_side_isolated(at, side, seed) for side in ('old', 'new')}
         m = merged.setdefault(i, {'calls': 0, 'both_raise': 0, 'mismatch': [], 'skipped': None})
         m['calls'] += 1
@@ -1675,8 +1755,10 @@ def check(ctx) -> Result:
             else:
                 uncovered.append((s['cls'], s['old'], m['skipped']))
             continue
+        if m.get('setup_failed'):
+            res.tally('calls_whose_receiver_or_arguments_cannot_be_built', m['setup_failed'])
         if m['calls'] == 0:
-            uncovered.append((s['cls'], s['old'], 'no call made'))
+            uncovered.append((s['cls'], s['old'], 'no call made' + (': ' + str(m.get('setup_error')) if m.get('setup_error') else '')))
             continue
         covered += 1
         for mm in m['mismatch'][:2]:
